@@ -266,6 +266,36 @@ func init() {
 							ok bool
 						}{big.NewInt(-1), true})
 					}
+					// out of range well beyond the neighbours: multiples of 2^(m-1) and 2^m of either sign (values whose
+					// low bits look like a boundary value's), and random magnitudes beyond either end
+					type cand = struct {
+						z  *big.Int
+						ok bool
+					}
+					for _, k := range []int64{2, 3, 4, 5, 7, 255, 256, 257} {
+						for _, sh := range []uint{uint(m - 1), uint(m)} {
+							for _, sg := range []int64{1, -1} {
+								z := new(big.Int).Mul(big.NewInt(k*sg), pow2(sh))
+								if z.Cmp(lo) >= 0 && z.Cmp(hi) <= 0 {
+									continue
+								}
+								cands = append(cands, cand{z, false})
+							}
+						}
+					}
+					for q := 0; q < 4; q++ {
+						z := new(big.Int).SetBytes(r.Bytes(1 + r.Intn(9)))
+						z.Add(z, big.NewInt(1))
+						if r.Bool() {
+							z.Lsh(z, uint(r.Intn(m)))
+						}
+						if r.Bool() {
+							z.Add(z, hi)
+						} else {
+							z.Sub(lo, z)
+						}
+						cands = append(cands, cand{z, false})
+					}
 					for _, cd := range cands {
 						reps := 2
 						if c.Thorough() {
